@@ -2,18 +2,27 @@
 
 Technique: bounded-exhaustive enumeration (E-enum).  For EVERY ledger of the shared ledger family
 (vt.ledgers: all subsets of <= n snippets of a 27-letter directive alphabet on a fixed preamble of opens;
-quick n <= 2, thorough n <= 4), loaded from text by the real Beancount loader, EVERY table (postings, entries,
+quick n <= 3, thorough n <= 4), loaded from text by the real Beancount loader, EVERY table (postings, entries,
 transactions, prices, balances, notes, events, documents, accounts, commodities) is queried through AST
 statements for ``*``, for all its columns at once and for EVERY column alone; plus the metadata functions
-meta / entry_meta / any_meta (and the subscript forms meta['k'], entry.meta['k']) for every metadata key that
-occurs anywhere in the ledger (keys only on the posting, only on the entry, on both, on neither, of every
-value type) and one absent key, open_meta(account[, k]), commodity_meta / currency_meta(currency[, k]),
-open_date, close_date (row arguments on postings / accounts / commodities and constant arguments, known and
-unknown), and the structured attribute paths entry.*, position.units.*, position.cost.*, price.*, weight.*,
+meta / entry_meta / any_meta for every metadata key that occurs anywhere in the ledger (keys only on the
+posting, only on the entry, on both, on neither, of every value type) and one absent key, open_meta(account[, k]),
+commodity_meta / currency_meta(currency[, k]), open_date, close_date (row arguments on postings / accounts /
+commodities and constant arguments, known and unknown), the subscript form x['k'] of the same lookups over EVERY
+dictionary-valued expression of every table (meta on postings, entries, every typed table and commodities;
+entry.meta on postings; open.meta and close.meta on accounts; open_meta(account), commodity_meta(c),
+currency_meta(c) with row and constant arguments) for every key of the ledger and the absent key, and the
+structured attribute paths entry.*, position.units.*, position.cost.*, price.*, weight.*,
 amount.*, open.*, close.*.  Ledgers containing a pad are explored a second time in the shape older Beancount
 versions produce (pad postings with ``meta = None``, vt.ledgers.legacy_pad); the currency-accounts plugin of
-the alphabet yields ``meta is None`` postings from text alone.  Two ledgers outside the bound are added: the
-full alphabet, and a ledger with a failing balance assertion (non-NULL ``discrepancy``).
+the alphabet yields ``meta is None`` postings from text alone.  Ledgers outside the bound are added: the
+full alphabet, a ledger with a failing balance assertion (non-NULL ``discrepancy``), a Close without Open, keys
+named like row values, and ``falsy_values_mixed_case_keys``: the family's metadata values are all truthy except
+FALSE on postings and its keys all lower-case, so this ledger puts the values whose truth value is false (0, 0.00,
+FALSE, "", zero amount, NULL) next to truthy ones on every metadata-bearing level (commodity, open, close,
+transaction, posting, note, price, balance, event, pad), under keys over the whole key alphabet of the Beancount
+grammar (upper-case letters, digits, '-', '_'), every mixed-case key having an all-lower-case twin with a
+different value (a missing key and a present falsy value, a key and its case-folded form must stay distinct).
 
 Re-attach sweep: for ordered pairs (A, B) of ledgers (all pairs of the n <= 1 family; the full alphabet and the
 error ledgers against that family, both directions) B is attached with ``Connection.attach('beancount:',
@@ -40,7 +49,8 @@ Weakest readings (property silent or ambiguous -> both behaviours accepted):
   * columns that the model does not know (extensions) are counted as ``unmodelled`` and not judged; columns
     named by the property must exist.
 Fingerprints: ``<table>.<column>`` (wrong cell), ``<table>.rowcount``, ``<function>()`` (metadata / open /
-close lookups), ``<table>.<path>`` (attribute paths), crash fingerprint for exceptions.
+close lookups), ``subscript[key]`` (all x['k'] lookups), ``<table>.<path>`` (attribute paths), crash fingerprint
+for exceptions.
 """
 import beanquery
 from beanquery.parser import ast as A
@@ -73,6 +83,8 @@ for _t, _cls in R.TYPED.items():
 KEYED = {'accounts': 'account', 'commodities': 'name'}
 
 ABSENT_KEY = 'no-such-key'
+#: all x['key'] lookups: one mechanism (the dictionary x itself is judged as a whole under its own fingerprint)
+SUBSCRIPT_FP = 'subscript[key]'
 UNKNOWN_ACCOUNT = 'Assets:No:Such:Account'
 UNKNOWN_CURRENCY = 'NOPE'
 
@@ -108,6 +120,33 @@ EXTRAS['row_keys'] = ledgers.PREAMBLE + (
     '  Assets:Bank  100.00 EUR @ 1.25 USD\n    usd: "bank usd"\n    eur: 2020-01-01\n    assets-cash: 3\n    assets-bank: 4\n'
     '2020-01-08 * "usd" "eur"\n  eur: "second entry eur"\n  assets-cash: TRUE\n'
     '  Assets:Bank  -10.00 EUR @ 1.25 USD\n    eur: "b"\n  Assets:Cash  12.50 USD\n  Expenses:Fees  0.00 USD\n    usd: "fee"\n')
+# metadata whose truth value is false (0, 0.00, FALSE, "", a zero amount, NULL) and truthy twins, on EVERY level that
+# carries metadata (commodity, open, close, transaction, posting, note, price, balance, event, pad), under keys that
+# use the whole key alphabet of the Beancount grammar ([a-z][a-zA-Z0-9-_]+: upper-case letters, digits, '-', '_');
+# every mixed-case key has an all-lower-case twin holding a DIFFERENT value on the same or on another level, so
+# that a lookup that folds, trims or otherwise rewrites the key, or that tests the value's truth instead of the key's
+# presence, yields a different cell
+EXTRAS['falsy_values_mixed_case_keys'] = ledgers.PREAMBLE + (
+    '2020-01-02 commodity USD\n  name: ""\n  isoCode: "840"\n  isocode: "lower-commodity"\n  fee: 0\n  feeRate: 0.00\n'
+    '  quoted: FALSE\n  tracked: TRUE\n  unit_Amt: 0.00 USD\n  nothing:\n'
+    '2020-01-02 commodity ZRO\n  fee: 0.00\n  isocode: ""\n  feerate: 2\n'
+    '2020-01-02 commodity EUR\n  quoted: TRUE\n  fee: 1.5\n  isoCode: ""\n'
+    '2020-01-04 open Assets:Zero USD,ZRO\n  bankName: "First Bank"\n  bankname: ""\n  limit: 0\n  active: FALSE\n  x2_Y-z: 0.0\n'
+    '2020-01-04 open Assets:Nil\n  bankName: ""\n  limit: 5\n  active: TRUE\n'
+    '2020-01-05 * "" "falsy values"\n  invoiceId: "INV-1"\n  invoiceid: ""\n  count: 0\n  done: FALSE\n  both_Keys: 0\n  fee: "entry fee"\n'
+    '  Assets:Zero  10.00 USD\n    receiptNo: 0\n    receiptno: 17\n    done: TRUE\n    invoiceId: ""\n    both_Keys: FALSE\n'
+    '  Assets:Cash  -10.00 USD\n    receiptNo: 0.00\n    count: ""\n    done: FALSE\n    bankName: 0\n'
+    '2020-01-06 * "P" "second"\n  invoiceId: 0\n  invoiceid: "lower-2"\n  done: TRUE\n'
+    '  Assets:Zero  0.00 USD\n    zeroAmt: 0.00 USD\n    zeroamt: 1.00 USD\n    invoiceid: FALSE\n'
+    '  Assets:Nil  0 ZRO\n'
+    '  Assets:Bank  0.00 EUR\n    receiptNo: 18\n    receiptno: 0\n'
+    '2020-01-07 note Assets:Zero ""\n  writtenBy: ""\n  writtenby: "me"\n  count: 0\n'
+    '2020-01-08 price ZRO 0 USD\n  srcName: ""\n  srcname: "feed"\n'
+    '2020-01-09 balance Assets:Zero 10.00 USD\n  checkedBy: FALSE\n  checkedby: TRUE\n'
+    '2020-01-10 event "emptyEvent" ""\n  evKey: 0\n  evkey: 1\n'
+    '2020-02-01 pad Assets:Nil Equity:Opening-Balances\n  padKey: ""\n  padkey: "p"\n'
+    '2020-02-02 balance Assets:Nil 1 ZRO\n'
+    '2020-12-31 close Assets:Zero\n  closedBy: ""\n  closedby: 0\n')
 
 
 def _re_sub_colon(account):
@@ -134,6 +173,11 @@ ROW_KEYS = [
     ('narration', lambda: col('narration'), lambda r: r['narration']),
     ('payee', lambda: col('payee'), lambda r: r['payee']),
 ]
+
+
+def sub(node, key):
+    """node['key']"""
+    return A.Subscript(node, key)
 
 
 def path_ast(path):
@@ -309,16 +353,18 @@ class Explorer:
                 acc.count('postings_with_cost')
         pcols = set(prow[0]) - {'$posting'} if prow else set(REQUIRED['postings'])
         g_meta = [T(f"meta('{k}')", F('meta', K(k)), 'meta()', lambda r, k=k: R.meta_lookup(r['$posting'], k)) for k in keys]
-        g_meta += [T(f"meta['{k}']", A.Subscript(col('meta'), k), 'postings.meta[]',
+        g_meta += [T(f"meta['{k}']", A.Subscript(col('meta'), k), SUBSCRIPT_FP,
                      lambda r, k=k: R.meta_lookup(r['$posting'], k)) for k in keys]
         g_entry = [T(f"entry_meta('{k}')", F('entry_meta', K(k)), 'entry_meta()',
                      lambda r, k=k: R.entry_meta_lookup(r['entry'], k)) for k in keys]
-        g_entry += [T(f"entry.meta['{k}']", A.Subscript(A.Attribute(col('entry'), 'meta'), k), 'postings.entry.meta[]',
+        g_entry += [T(f"entry.meta['{k}']", A.Subscript(A.Attribute(col('entry'), 'meta'), k), SUBSCRIPT_FP,
                       lambda r, k=k: R.entry_meta_lookup(r['entry'], k)) for k in keys]
         g_any = [T(f"any_meta('{k}')", F('any_meta', K(k)), 'any_meta()',
                    lambda r, k=k: R.any_meta_lookup(r['$posting'], r['entry'], k)) for k in keys]
         g_open = [T(f"open_meta(account, '{k}')", F('open_meta', col('account'), K(k)), 'open_meta()',
                     lambda r, k=k: R.directive_meta(opn(r['account']), k)) for k in keys]
+        g_open += [T(f"open_meta(account)['{k}']", sub(F('open_meta', col('account')), k), SUBSCRIPT_FP,
+                     lambda r, k=k: R.directive_meta(opn(r['account']), k)) for k in keys]
         g_open += [T('open_meta(account)', F('open_meta', col('account')), 'open_meta()',
                      lambda r: R.directive_meta(opn(r['account']))),
                    T('open_date(account)', F('open_date', col('account')), 'open_date()',
@@ -328,6 +374,8 @@ class Explorer:
         g_comm = []
         for fn in ('commodity_meta', 'currency_meta'):
             g_comm += [T(f"{fn}(currency, '{k}')", F(fn, col('currency'), K(k)), f'{fn}()',
+                         lambda r, k=k: R.directive_meta(comm.get(r['currency']), k)) for k in keys]
+            g_comm += [T(f"{fn}(currency)['{k}']", sub(F(fn, col('currency')), k), SUBSCRIPT_FP,
                          lambda r, k=k: R.directive_meta(comm.get(r['currency']), k)) for k in keys]
             g_comm.append(T(f'{fn}(currency)', F(fn, col('currency')), f'{fn}()',
                             lambda r: R.directive_meta(comm.get(r['currency']))))
@@ -353,15 +401,20 @@ class Explorer:
 
         # ---- entries ---------------------------------------------------------------------------
         erow = R.entries_rows(entries)
-        self.check_table('entries', erow, set(erow[0]) if erow else set(REQUIRED['entries']))
+        g_sub = [T(f"meta['{k}']", sub(col('meta'), k), SUBSCRIPT_FP, lambda r, k=k: r['meta'].get(k)) for k in keys]
+        self.check_table('entries', erow, set(erow[0]) if erow else set(REQUIRED['entries']), [g_sub])
         for e in entries:
             acc.add('directive_types', type(e).__name__)
 
         # ---- typed tables ----------------------------------------------------------------------
         for table in R.TYPED:
             ds, rows = R.typed_rows(entries, table)
-            groups = [[T('.'.join(p), path_ast(p), f'{table}.' + '.'.join(p), lambda r, p=p: R.attr_path(r[p[0]], p[1:]))
-                       for p in TABLE_PATHS.get(table, [])]]
+            group = [T('.'.join(p), path_ast(p), f'{table}.' + '.'.join(p), lambda r, p=p: R.attr_path(r[p[0]], p[1:]))
+                     for p in TABLE_PATHS.get(table, [])]
+            # the directive's own metadata, key by key: every key of the ledger (present on this directive type or
+            # only elsewhere) and the absent key
+            group += [T(f"meta['{k}']", sub(col('meta'), k), SUBSCRIPT_FP, lambda r, k=k: r['meta'].get(k)) for k in keys]
+            groups = [group]
             self.check_table(table, rows, set(REQUIRED[table]), groups)
 
         # ---- accounts --------------------------------------------------------------------------
@@ -370,6 +423,11 @@ class Explorer:
                   for p in TABLE_PATHS['accounts']]
         g_fun = [T(f"open_meta(account, '{k}')", F('open_meta', col('account'), K(k)), 'open_meta()',
                    lambda r, k=k: R.directive_meta(r['open'], k)) for k in keys]
+        g_fun += [T(f"open_meta(account)['{k}']", sub(F('open_meta', col('account')), k), SUBSCRIPT_FP,
+                    lambda r, k=k: R.directive_meta(r['open'], k)) for k in keys]
+        for side in ('open', 'close'):
+            g_fun += [T(f"{side}.meta['{k}']", sub(path_ast((side, 'meta')), k), SUBSCRIPT_FP,
+                        lambda r, k=k, side=side: R.directive_meta(r[side], k)) for k in keys]
         g_fun += [T('open_meta(account)', F('open_meta', col('account')), 'open_meta()', lambda r: R.directive_meta(r['open'])),
                   T('open_date(account)', F('open_date', col('account')), 'open_date()', lambda r: R.attr_path(r['open'], ['date'])),
                   T('close_date(account)', F('close_date', col('account')), 'close_date()', lambda r: R.attr_path(r['close'], ['date']))]
@@ -385,6 +443,8 @@ class Explorer:
             for fn in ('commodity_meta', 'currency_meta'):
                 g_const += [T(f"{fn}('{c}', '{k}')", F(fn, K(c), K(k)), f'{fn}()',
                               lambda r, c=c, k=k: R.directive_meta(comm.get(c), k)) for k in ckeys]
+                g_const += [T(f"{fn}('{c}')['{k}']", sub(F(fn, K(c)), k), SUBSCRIPT_FP,
+                              lambda r, c=c, k=k: R.directive_meta(comm.get(c), k)) for k in ckeys]
                 g_const.append(T(f"{fn}('{c}')", F(fn, K(c)), f'{fn}()', lambda r, c=c: R.directive_meta(comm.get(c))))
         self.check_table('accounts', arow, {'account', 'open', 'close'}, [g_path, g_fun, g_const])
 
@@ -394,7 +454,10 @@ class Explorer:
         for fn in ('commodity_meta', 'currency_meta'):
             g_fun += [T(f"{fn}(name, '{k}')", F(fn, col('name'), K(k)), f'{fn}()',
                         lambda r, k=k: r['meta'].get(k)) for k in keys]
+            g_fun += [T(f"{fn}(name)['{k}']", sub(F(fn, col('name')), k), SUBSCRIPT_FP,
+                        lambda r, k=k: r['meta'].get(k)) for k in keys]
             g_fun.append(T(f'{fn}(name)', F(fn, col('name')), f'{fn}()', lambda r: r['meta']))
+        g_fun += [T(f"meta['{k}']", sub(col('meta'), k), SUBSCRIPT_FP, lambda r, k=k: r['meta'].get(k)) for k in keys]
         self.check_table('commodities', crow, {'meta', 'date', 'name'}, [g_fun])
 
         for tc in self.unmodelled:
@@ -553,7 +616,9 @@ def run(ctx):
                 'compared with the direct traversal; evaluations = cells compared',
         'exhaustive': True,
         'bound': f'all {size} ledgers with <= {n} of the {len(ledgers.ALPHABET)} alphabet snippets x {len(TABLES)} tables x '
-                 f'every column (alone, all together, *) x meta functions over every key of the ledger',
+                 f'every column (alone, all together, *) x meta functions and x[key] subscripts of every dictionary-valued '
+                 f'expression over every key of the ledger; + {1 + len(EXTRAS)} ledgers outside the family (full alphabet, '
+                 f'error ledgers, falsy metadata values under mixed-case keys on every level)',
         'completed_n': n,
         'alphabet': ledgers.NAMES,
         'ledgers': acc.n['ledgers'],
@@ -599,6 +664,10 @@ def run(ctx):
         'cells are compared by (type, value), Decimal exponent ignored, collections by kind (set / frozenset / duplicate-free list)',
         'after a second Connection.attach (what beanquery.connect does once and the shell .reload repeats) the ledger of the connection is '
         'the one attached last: every table and lookup must present it',
+        "x['k'] over a NULL dictionary (posting without metadata, unknown account / commodity, no Close) is NULL, like the function forms",
+        'metadata values are returned whatever their truth value (0, FALSE, "" are values, not missing keys); keys are looked up exactly '
+        '(case-sensitive: Beancount keys may contain upper-case letters); both exercised by the extra ledger falsy_values_mixed_case_keys, '
+        'not by the family (whose values are truthy except FALSE on postings, keys lower-case)',
         'pad postings without metadata are obtained by stripping the metadata of the postings of P transactions (Beancount < 3.1 shape); '
         'the currency_accounts plugin gives meta-less postings from text',
     ])
